@@ -234,10 +234,11 @@ class Message:
             return True
         for (h, v) in self.headers:
             if h == "CONNECTION":
-                v = v.lower().strip(" \t")
-                if v == "close":
+                # Connection is a list of options (RFC 9110 section 7.6.1)
+                options = [o.strip(" \t") for o in v.lower().split(",")]
+                if "close" in options:
                     return True
-                elif v == "keep-alive":
+                elif "keep-alive" in options:
                     return False
                 break
         return self.version <= (1, 0)
